@@ -280,10 +280,6 @@ def handle (op : String) (args : List String) : String :=
     match parseValue a, parseValue b with
     | some x, some y => obsBits (obsVal x y)
     | _, _ => "bad-op"
-  | "ordvalf", [a, b] =>
-    match parseValue a, parseValue b with
-    | some x, some y => obsBits (obsValFixed x y)
-    | _, _ => "bad-op"
   | "ordsortv", [a, l] => match asc? a with | some a => sortValues a (parseList l) | none => "bad-op"
   | "ordsorta", [a, l] => match asc? a with | some a => sortValues a (parseList l) | none => "bad-op"
   | "ordsorts", [a, w, l] =>
